@@ -275,7 +275,7 @@ PROPS["C06"] = {
     "models": POSTPROC_MODELS,
     "harnesses": [
         {"pkg": PP, "func": "VerifH_C06_postprocess", "opts": {"map_order_all": False},
-         "covers": ["redirect-limit-reached", "redirect-followed", "asset-depth-limit", "asset-added", "outlink-queued", "outlink-domains-crawl"]},
+         "covers": ["redirect-limit-reached", "redirect-followed", "asset-depth-limit", "asset-added", "outlink-queued", "outlink-domains-crawl", "link-header"]},
     ],
 }
 
@@ -284,7 +284,7 @@ ADA = "github.com/ada-url/goada."
 URL_MODELS = dict(DEFAULT_MODELS)
 URL_MODELS.update({
     ADA + "New": VM + "AdaNew", ADA + "NewWithBase": VM + "AdaNewWithBase",
-    "(*" + ADA + "Url).SetHash": VM + "AdaSetHash", "(*" + ADA + "Url).Protocol": VM + "AdaProtocol", "(*" + ADA + "Url).Hostname": VM + "AdaHostname",
+    "(*" + ADA + "Url).SetHash": VM + "AdaSetHash", "(*" + ADA + "Url).Protocol": VM + "AdaProtocol", "(*" + ADA + "Url).Hostname": VM + "AdaHostname", "(*" + ADA + "Url).Host": VM + "AdaHost",
     "(*" + ADA + "Url).Href": VM + "AdaHref", "(*" + ADA + "Url).Free": VM + "AdaFree",
     "net/http.NewRequest": VM + "HTTPNewRequest",
     "(github.com/philippgille/gokv/leveldb.Store).Get": VM + "LevelGet", "(github.com/philippgille/gokv/leveldb.Store).Set": VM + "LevelSet",
@@ -301,7 +301,7 @@ PROPS["C05"] = {
     "outside": "ada-url's parsing itself (modelled by a per-input outcome table; the native replay runs the real ada on the same inputs); regex exclusions; GenerateCrawlConfig appending the two built-in hosts (the harness builds the list it produces)",
     "assumptions": COMMON_ASSUME + ["goada.New/NewWithBase return, per input, the protocol/hostname/href recorded in the harness table; Href() has no fragment iff SetHash(\"\") was called",
                                     "http.NewRequest returns a request for a parsable URL; leveldb store = map"],
-    "models": URL_MODELS,
+    "models": {k: v for k, v in URL_MODELS.items() if not k.endswith("models.URLToString")},
     "stub_pkgs": DEFAULT_STUBS + [STATS],
     "harnesses": [
         {"pkg": PRE, "func": "VerifH_C05_children", "opts": {"map_order_all": False}, "covers": ["out-of-scope-child", "in-scope-child"]},
@@ -330,12 +330,15 @@ PROPS["C09"] = {
     "level": "model_checking",
     "explanation": "models.URL.String()/URLToString/encodeQuery and net/url's query parsing run from their real SSA; Go's unspecified map iteration order is a decision variable, so the check asks whether ANY iteration order makes two URL objects "
                    "with the same text disagree or makes the parameters change order; the accept conditions of NormalizeURL (scheme, localhost/127.0.0.1, dotless host, fragment removal, quote trimming) are exercised in C05's harnesses.",
-    "bounds": "6 query shapes (2-3 keys, repeated keys, valueless key, no query); all map iteration orders",
+    "bounds": "6 query shapes (2-3 keys, repeated keys, valueless key, no query); all map iteration orders; 15 URL shapes for NormalizeURL (good, quoted, fragment, relative, scheme-relative, upper-case, ftp, localhost, 127.0.0.1 with and without port, dotless, unparsable)",
     "outside": "idempotence, WHATWG-conformant relative resolution, IDNA and percent-encoding behaviour: properties of ada-url (C++), net/url and x/net/idna, whose parsers are not encoded",
     "assumptions": COMMON_ASSUME + ["idna.ToASCII is the identity on ASCII hosts"],
     "harnesses": [
         {"pkg": MD, "func": "VerifH_C09_query_canonical", "replay_repeat": 400, "covers": ["several-keys"]},
+        {"pkg": PRE, "func": "VerifH_C09_normalize", "opts": {"map_order_all": False}, "covers": ["accepted", "rejected", "relative", "fragment-stripped", "quotes-trimmed"]},
     ],
+    "models": {k: v for k, v in URL_MODELS.items() if not k.endswith("models.URLToString")},
+    "stub_pkgs": DEFAULT_STUBS + [STATS],
 }
 
 ARCH_MODELS = dict(DEFAULT_MODELS)
@@ -364,5 +367,32 @@ PROPS["C02"] = {
         {"pkg": "internal/pkg/archiver/discard", "func": "VerifH_C02_discard_policy", "covers": ["discarded", "kept", "cloudflare-challenge"]},
         {"pkg": AR, "func": "VerifH_C02_process_body", "opts": {"max_steps": 50000000, "unwind": 70000}, "covers": ["body-ok", "body-error", "spooled", "handed-to-postprocessing"]},
         {"pkg": AR, "func": "VerifH_C02_archive", "opts": {"max_steps": 50000000, "unwind": 70000}, "covers": ["retries-exhausted", "archived", "sync-write-awaited"]},
+    ],
+}
+
+PIPE_MODELS = dict(URL_MODELS)
+PIPE_MODELS.update(ARCH_MODELS)
+PIPE_MODELS.update(POSTPROC_MODELS)
+PIPE_MODELS.update({
+    "(*net/http.Client).Do": VM + "SiteClientDo",
+    EXT + "IsHTML": VM + "SiteIsHTML", EXT + "IsJSON": VM + "SiteIsJSON",
+    EXT + "HTMLAssets": VM + "SiteHTMLAssets", EXT + "HTMLOutlinks": VM + "SiteHTMLOutlinks", EXT + "JSON": VM + "SiteJSON",
+    EXT + "IsXML": VM + "False", EXT + "IsM3U8": VM + "False", EXT + "IsS3": VM + "False", EXT + "IsSitemapXML": VM + "False", EXT + "IsPDF": VM + "False",
+    Z + "/pkg/models.URLToString": VM + "URLToStringQ",
+})
+PROPS["C01"] = {
+    "level": "model_checking",
+    "explanation": "the real pipeline - reactor, preprocessor, archiver, postprocessor and finisher, started through their Start functions and wired as controler.startPipeline wires them - carries one seed through a site whose shape is chosen "
+                   "symbolically (root answers 200/301/404/always-503/one transport failure; up to 2 embedded assets drawn from: image, stylesheet with its own asset, a duplicate, an excluded host, a non-http scheme, a 404; an outlink), "
+                   "for max-hops/max-retry/max-redirect in {0,1}, asset capture on/off, seencheck on/off, under every interleaving of the stage goroutines within the preemption bound. At quiescence: exactly one finish report, no pending node, "
+                   "every in-scope URL fetched exactly once, out-of-scope ones never, outlinks queued as fresh seeds, reactor empty. Stage panics (consistency checks) and deadlocks are violations.",
+    "bounds": "one seed, one worker per stage, <=2 assets (+1 asset of an asset), <=1 redirect, <=1 outlink; configuration bits above; <=2 preemptions",
+    "outside": "several seeds in flight at once (token/ownership discipline: C12), more than one worker per stage, the real HTTP/WARC/HTML layers (modelled as in C02/C05/C06), the local and HQ queues",
+    "assumptions": COMMON_ASSUME + ["all stub contracts of C02, C05 and C06 (scripted site instead of a scripted server; extractor layer returns the site's link lists)"],
+    "models": PIPE_MODELS,
+    "stub_pkgs": DEFAULT_STUBS + [STATS],
+    "harnesses": [
+        {"pkg": "internal/verifpipe", "func": "VerifH_C01_one_seed", "no_native": True, "opts": {"max_steps": 50000000, "unwind": 70000, "map_order_all": False, "preempt": 1},
+         "covers": ["finished", "asset-fetched", "asset-of-asset", "redirect-followed", "always-failing", "outlink-produced"]},
     ],
 }
